@@ -2,7 +2,8 @@
 Props/C06.lean — property theorems for C06 (Copy / CopyTo produce an equal, independent copy).
 
 `copy_correct` / `copyTo_correct`: for the repaired emitter model (`GenCfg.fixed`), every well-formed type
-tree, every well-typed source whose maps have pairwise distinct keys, every argument form and — for CopyTo —
+tree, every well-typed source whose maps have pairwise distinct keys (pointer-keyed maps: the nil pointer at most
+once, `KeysOK false`), every argument form and — for CopyTo —
 every well-typed destination whose slices and maps are empty and whose pointers are nil, the observation
 the driver derives from the model's outcome (`copyObsOfWith`, Spec/CopyObs.lean) satisfies the driver's
 acceptance relation `cpAccepts`, i.e. `copyAccepts` of Spec/CopySpec.lean: no panic, nothing shared, source
@@ -156,6 +157,18 @@ example : cpAccepts exNode exVal none (copyObsOfWith dropCaps GenCfg.fixed exNod
 
 def accepted (cfg : GenCfg) (n : Node) (v : Val) : Bool :=
   cpAccepts n v none (copyObsOfWith dropCaps cfg n v (copyM cfg n .ptr v))
+
+/-- `map[*int]int` with a nil pointer key (one key in Go, found by `m[nil]`) next to two non-nil pointer keys
+with equal targets (distinct keys in Go, equal `Val`s): the hypotheses hold and the copy is accepted. -/
+def ptrKeyN : Node := .map { typn := "PM" } (intN "" true) intN
+def ptrKeyV : Val := .map false [.ptr (.int 1), .nilptr, .ptr (.int 1)] [.int 5, .int 6, .int 7]
+example : NodeWF ptrKeyN = true ∧ WT ptrKeyN ptrKeyV = true ∧ KeysOK false ptrKeyN ptrKeyV = true ∧
+    accepted GenCfg.fixed ptrKeyN ptrKeyV = true := by decide
+/-- Why `KeysOK false` asks that the nil pointer is a key at most once: a `Val` with two nil keys (not a Go
+map) is well-typed, its copy has one entry, and the acceptance relation rejects it. -/
+example : WT ptrKeyN (.map false [.nilptr, .nilptr] [.int 5, .int 6]) = true ∧
+    KeysOK false ptrKeyN (.map false [.nilptr, .nilptr] [.int 5, .int 6]) = false ∧
+    accepted GenCfg.fixed ptrKeyN (.map false [.nilptr, .nilptr] [.int 5, .int 6]) = false := by decide
 
 /-- `copy-root-slice-lost`: `type L []int`; Copy of `L{1}` returns an empty slice. -/
 theorem repo_not_correct_root_slice_lost :
